@@ -526,8 +526,7 @@ func fieldNameOf(fa *ssa.FieldAddr) string {
 func (s *pstate) eval(v ssa.Value) *Term {
 	switch x := v.(type) {
 	case *ssa.Alloc:
-		s.allocN++
-		return leaf("new", x.Comment+strconv.Itoa(s.allocN))
+		return leaf("new", x.Comment+strconv.Itoa(allocOrdinal(x)))
 	case *ssa.MakeSlice:
 		s.allocN++
 		return nodeL("makeslice", strconv.Itoa(s.allocN), s.term(x.Len), s.term(x.Cap))
@@ -621,6 +620,22 @@ func (s *pstate) eval(v ssa.Value) *Term {
 		return s.callTerm(x, &x.Call, x.Pos())
 	}
 	return leaf("?", fmt.Sprintf("%T", v))
+}
+
+// allocOrdinal numbers the allocations of a function in block order, so that an allocation has one name on every path.
+func allocOrdinal(a *ssa.Alloc) int {
+	n := 0
+	for _, b := range a.Parent().Blocks {
+		for _, in := range b.Instrs {
+			if x, ok := in.(*ssa.Alloc); ok {
+				n++
+				if x == a {
+					return n
+				}
+			}
+		}
+	}
+	return 0
 }
 
 func mkNot(t *Term) *Term {
@@ -1273,6 +1288,37 @@ func rewriteGC(g *GC, f func(*Term) *Term) *GC {
 	}
 	out.Exit = rewriteTerm(g.Exit, f)
 	return out
+}
+
+// canonAllocs renames the allocations of one guarded command in order of first appearance (effects, exit, guards), so that
+// mirrored arms, which allocate at different source positions, compare equal.
+func canonAllocs(g *GC) *GC {
+	names := map[string]string{}
+	note := func(t *Term) bool {
+		if t.Op == "new" {
+			if _, ok := names[t.Leaf]; !ok {
+				base := strings.TrimRight(strings.TrimRight(t.Leaf, "0123456789"), "^")
+				names[t.Leaf] = base + "^" + strconv.Itoa(len(names)+1)
+			}
+		}
+		return false
+	}
+	for _, e := range g.Effects {
+		e.any(note)
+	}
+	g.Exit.any(note)
+	for _, a := range g.Guards {
+		a.any(note)
+	}
+	if len(names) == 0 {
+		return g
+	}
+	return rewriteGC(g, func(t *Term) *Term {
+		if t.Op == "new" {
+			return leaf("new", names[t.Leaf])
+		}
+		return nil
+	})
 }
 
 // compareGCSets reports the differences between two sets of guarded commands (as sorted strings).
